@@ -222,7 +222,19 @@ func buildCorpus(e *Env, seed uint64, nMut int, long bool) (*common.Corpus, corp
 		// exact powers of two (and one off), deep nesting, very many tokens
 		for _, u := range []string{"", "\x00", strings.Repeat("\x00", 16), strings.Repeat("\x00", 1000), " ", strings.Repeat(" \t\n", 100),
 			"\xff\xfe", "\xc0\x80", "\xed\xa0\x80", "sel\xffect 1", "<scr\xc0ipt>", "\xf0\x9f\x92\xa9 or 1=1", "1\xa0or\xa01=1"} {
-			add(u, common.FLiteral)
+			add(u, common.FLiteral|common.FOdd)
+		}
+		// text that GROWS under case mapping or sanitising: invalid UTF-8 bytes become
+		// 3-byte U+FFFD, a few letters have longer upper-case forms (buffers sized
+		// "the key is never longer than the word")
+		for _, n := range []int{6, 11, 16, 33, 64, 100, 400} {
+			hi := strings.Repeat("\xff", n)
+			add(hi, common.FLiteral|common.FOdd)
+			add("1 union "+hi+" select 1", common.FLiteral|common.FOdd)
+			add("select "+strings.Repeat("\xc0\xe9", n/2)+" from t", common.FLiteral|common.FOdd)
+			add("<"+hi+" onerror=alert(1)>", common.FLiteral|common.FOdd)
+			add("<a "+hi+"=1 href=javascript:x>", common.FLiteral|common.FOdd)
+			add("1 or "+strings.Repeat("\u0250", n)+"=1", common.FLiteral|common.FOdd) // U+0250 (2 bytes) upper-cases to U+2C6F (3 bytes)
 		}
 		for _, n := range []int{255, 256, 257, 511, 512, 513, 1023, 1024, 1025, 2048, 4096, 8192, 16384, 32768, 65535, 65536, 65537} {
 			add(fill("", n), common.FLong)
